@@ -67,6 +67,38 @@ class GI[T](State):
     v: T | None = None
 
 
+class AlwaysEq:
+    """equals everything (unittest.mock.ANY style) - still an ordinary value for `Any`"""
+
+    def __eq__(self, other) -> bool:
+        return True
+
+    def __ne__(self, other) -> bool:
+        return False
+
+    def __hash__(self) -> int:
+        return 7
+
+    def __repr__(self) -> str:
+        return "AlwaysEq()"
+
+
+ALWAYS_EQ = AlwaysEq()
+
+# specialisations whose *display names* collide with the ones the grammar produces
+# (Box[Sequence[str]] vs Box[Sequence[int]] both read "Box[Sequence]"): created first and kept
+# alive, so a specialisation cache that confuses them hands out the wrong class
+_COLLIDERS = [
+    Box[cabc.Sequence[bytes]],
+    Box[cabc.Mapping[str, bytes]],
+    Box[cabc.Set[bytes]],
+    Box[typing.Optional[bytes]],  # noqa: UP007
+    Box[tuple[bytes, ...]],
+    Box[tuple[bytes, bytes]],
+    Box[frozenset[bytes]],
+    Box[typing.Literal["other"]],
+]
+
 _T = typing.TypeVar("_T")
 QSeq = typing.TypeAliasType("QSeq", cabc.Sequence[_T], type_params=(_T,))
 
@@ -107,7 +139,7 @@ LEAVES: dict[str, tuple] = {
     "Enum": (Color, [Color.RED], True),
     # conforming values are built at run time: equal to the literal arguments, not the same objects
     "Literal": (typing.Literal["alpha", 3000], ["".join(["al", "pha"]), int("3000")], True),
-    "Any": (typing.Any, [1, "s", None, FOREIGN], False),
+    "Any": (typing.Any, [1, ALWAYS_EQ, None, FOREIGN], False),
     "Missing": (Missing, [MISSING], False),
     "Callable": (cabc.Callable[[int], int], [_fn, len], False),
     "Protocol": (Runner, [_RUN], False),
@@ -543,6 +575,8 @@ def describe(v, depth: int = 0) -> str:
         return "MISSING"
     if v is FOREIGN:
         return "Foreign()"
+    if isinstance(v, AlwaysEq):
+        return "AlwaysEq()"
     if isinstance(v, State):
         return f"{type(v).__name__}({', '.join(f'{a}={describe(getattr(v, a, None), depth + 1)}' for a in type(v).__ATTRIBUTES__)})"
     if isinstance(v, (list, tuple, set, frozenset)):
